@@ -99,8 +99,8 @@ func cmdRun(args []string) int {
 
 func printResult(r *HarnessResult) {
 	s := r.Stats
-	fmt.Printf("harness %s: paths=%d completed=%d assumed=%d decisions=%d forks=%d instr=%d maxdepth=%d maxloop=%d wall=%.1fs\n",
-		r.Spec.Name, s.Paths, s.Completed, s.Assumed, s.Decisions, s.Forks, s.Instr, s.MaxDepth, s.MaxLoopSeen, r.WallS)
+	fmt.Printf("harness %s: paths=%d completed=%d assumed=%d cut=%d decisions=%d forks=%d instr=%d maxdepth=%d maxloop=%d wall=%.1fs\n",
+		r.Spec.Name, s.Paths, s.Completed, s.Assumed, s.Cut, s.Decisions, s.Forks, s.Instr, s.MaxDepth, s.MaxLoopSeen, r.WallS)
 	fmt.Printf("  solver: sat=%d unsat=%d unknown=%d errors=%d time=%.1fs  assertion queries=%d (unsat %d) checks=%d\n",
 		r.Solver.Sat, r.Solver.Unsat, r.Solver.Unknown, r.Solver.Errors, r.Solver.Time.Seconds(), r.AssertQ, r.AssertUnsat, s.Checks)
 	var labels []string
@@ -433,7 +433,7 @@ func writeEvidence(prop string, tier int, seed int64, results []*HarnessResult, 
 			cands = append(cands, v.Signature())
 		}
 		harnesses = append(harnesses, map[string]any{
-			"name": r.Spec.Name, "paths": r.Stats.Paths, "completed": r.Stats.Completed, "pruned_by_assume": r.Stats.Assumed,
+			"name": r.Spec.Name, "paths": r.Stats.Paths, "completed": r.Stats.Completed, "pruned_by_assume": r.Stats.Assumed, "cut_by_stated_bound": r.Stats.Cut,
 			"decisions": r.Stats.Decisions, "max_depth": r.Stats.MaxDepth, "instructions": r.Stats.Instr, "wall_s": round1(r.WallS),
 			"confirmed_violations": cands, "spurious_candidates": len(r.Spurious), "witnesses_validated": r.WitnessOK,
 			"opaque_debug_lookups": r.Opaque, "notes": r.Notes, "twin": r.Spec.Twin,
